@@ -123,6 +123,57 @@ impl CostModel {
         Ok(pos_cost)
     }
 
+    /// Calculates the total cost of one search step: the vehicle cost of the whole
+    /// state change (access plus traversal), the network cost of traversing `edge`, and,
+    /// when the step follows a previous edge, the network cost of the turn between them.
+    ///
+    /// # Arguments
+    ///
+    /// * `edge` - edge being traversed
+    /// * `turn` - the (previous, next) edge pair of the turn taken, if any
+    /// * `prev_state` - state of the search at the beginning of this step
+    /// * `next_state` - state of the search at the end of this step
+    ///
+    /// # Returns
+    ///
+    /// Either the strictly positive total cost, or an error.
+    pub fn step_cost(
+        &self,
+        edge: &Edge,
+        turn: Option<(&Edge, &Edge)>,
+        prev_state: &[StateVar],
+        next_state: &[StateVar],
+    ) -> Result<Cost, CostModelError> {
+        let vehicle_cost = cost_ops::calculate_vehicle_costs(
+            (prev_state, next_state),
+            &self.feature_indices,
+            &self.weights,
+            &self.vehicle_rates,
+            &self.cost_aggregation,
+        )?;
+        let network_cost = cost_ops::calculate_network_traversal_costs(
+            (prev_state, next_state),
+            edge,
+            &self.feature_indices,
+            &self.weights,
+            &self.network_rates,
+            &self.cost_aggregation,
+        )?;
+        let turn_cost = match turn {
+            None => Cost::ZERO,
+            Some(edge_sequence) => cost_ops::calculate_network_access_costs(
+                (prev_state, next_state),
+                edge_sequence,
+                &self.feature_indices,
+                &self.weights,
+                &self.network_rates,
+                &self.cost_aggregation,
+            )?,
+        };
+        let total_cost = vehicle_cost + network_cost + turn_cost;
+        Ok(Cost::enforce_strictly_positive(total_cost))
+    }
+
     /// Calculates the cost of accessing some destination edge when coming
     /// from some previous edge.
     ///
